@@ -5,7 +5,8 @@ EXPLANATION = ("There is no lock anywhere in cache.py/context.py, so serialisabi
                "(model-checking territory). Decided: the structural clause behind 'an entry that another evaluation is "
                "still producing is never served as a finished result' - (a) per back-end the data is published before/"
                "together with the ready marker, (b) the evaluator's early READY metadata is harmless only because every "
-               "back-end has a data-presence witness, (c) get() gates on the ready marker.")
+               "back-end has a data-presence witness, (c) get() gates on the ready marker; plus (d) the in-memory cache hands every evaluation its own "
+               "copy (two concurrent evaluations hitting one key must not share a mutable object).")
 
 
 def run(chk):
@@ -14,3 +15,4 @@ def run(chk):
     F.rule_ready_marker_order(chk, chk.repo, ev, ea, "C12.1a")
     F.rule_data_presence_witness(chk, chk.repo, "C12.1b")
     F.rule_backend_refuses_errors(chk, chk.repo, "C12.1c")
+    F.rule_memory_copy(chk, chk.repo, "C12.2")
